@@ -88,15 +88,15 @@ theorem tree_unique {t t' : Ty} {pre : List Token} (hw : wf t = true) (hw' : wf 
 /-! ## C08 for types -/
 
 /-- every sentence of G_T is accepted, with the tree of the derivation: if the kinds of the (expanded) tokens in front
-of `<eof>` are derivable from G_T — whatever their spelling, case, quoting, trivia — and no simple type name heads a
-dotted path, then `parseTypeTop` succeeds (with the driver's fuel, and with any fuel `≥ needT t`), and its result is
-the unique `wf` tree whose yield these tokens are. -/
+of `<eof>` are derivable from G_T — whatever their spelling, case, quoting, trivia; NO side condition — then
+`parseTypeTop` succeeds (with the driver's fuel, and with any fuel `≥ needT t`), and its result is the unique `wf` tree
+whose yield these tokens are. -/
 theorem typeD_accepted {ts : PState} {pre rest : List Token} (he : expand ts = pre ++ rest) (hr : curX rest = .eof)
-    (hd : TypeD (pre.map (·.kind))) (hh : HeadsOK pre) :
+    (hd : TypeD (pre.map (·.kind))) :
     ∃ t, wf t = true ∧ Match (yieldT t) pre ∧ parseTypeTop (topFuel ts) ts = .ok t ∧
       (∀ fuel, needT t ≤ fuel → parseTypeTop fuel ts = .ok t) ∧
       ∀ t', wf t' = true → Match (yieldT t') pre → t' = t := by
-  obtain ⟨t, hw, hm⟩ := typeD_tree hd hh
+  obtain ⟨t, hw, hm⟩ := typeD_tree hd
   have hc := parseTypeTop_complete hw hm he hr
   exact ⟨t, hw, hm, hc _ (need_le_topFuel hw hm he), hc, fun t' hw' hm' => tree_unique hw' hw hm' hm⟩
 
